@@ -178,7 +178,7 @@ Definition ONE_BITS : Z := 1065353216.
 Definition MINUS_ONE_BITS : Z := 3212836864.
 Definition g_fsign (a : Z) : result Z :=
   if is_nan_bits a then nan_unspec "FSign of a NaN"
-  else Done (if flt 0 a then ONE_BITS else if flt a 0 then MINUS_ONE_BITS else 0).
+  else Done (if flt 0 a then ONE_BITS else if flt a 0 then MINUS_ONE_BITS else a).   (* x = 0: a zero; its sign is kept *)
 
 (* ------------------------------------------------------------------ *)
 (* Lifting to tagged values                                             *)
